@@ -50,9 +50,8 @@ def signable(ctx, s, fn):
         bs = find_values(i["args"][0], lambda x: x[0] == "bytes")
         if bs and b"[0," in bs[0][1]:
             cands.append((b, i, bs[0][1]))
-    from ..main import AnalysisError
     if len(cands) != 1:
-        raise AnalysisError("canonical serialization template not found in %s" % fn.nice)
+        return None             # the serialization is not assembled by one format template: not decided
     b, info, tmpl = cands[0]
     args = info["pre"][1] if info["pre"][1] is not None else info["args"][1]
     arr = find_values(args, lambda x: x[0] == "agg" and x[1] == "array")
@@ -70,7 +69,8 @@ def signable(ctx, s, fn):
 
 def tyname(t):
     t = t.replace("&", "").strip()
-    return t.split("::")[-1]
+    t = t.split("::")[-1]
+    return "str" if t == "String" else t        # Display of String is Display of str
 
 
 def run(ctx):
@@ -82,8 +82,25 @@ def run(ctx):
     me = ("param", 1)
     eacc = lambda name: (lambda v: v[0] == "call" and v[1].endswith("::" + name) and v[1].startswith("pocket_types::event::") and v[2] and v[2][0] == me)
     # ---------------------------------------------------------------- 2. sibling agreement
-    vb, vinfo, vt, vdisp = signable(ctx, s, ver)
-    sb, sinfo, st, sdisp = signable(ctx, s, sign)
+    sv, ss = signable(ctx, s, ver), signable(ctx, s, sign)
+    templated = sv is not None and ss is not None
+    if not templated:
+        who = " and ".join(f.nice.split("::")[-1] for f, x in ((ver, sv), (sign, ss)) if x is None)
+        s.add("S-SIBLING", ver, "canonical-template", "verify/sign_new", ver.sp, UNDECIDED,
+              "%s does not assemble the serialization with the single format template the rule reads ([0,\"{}\",{},{},{},\"{}\"]): "
+              "that signer and verifier serialize alike is not decided" % who)
+        vdisp = sdisp = []
+        vb = sb = 0
+        vinfo = sinfo = {"sp": ver.sp}
+    else:
+        vb, vinfo, vt, vdisp = sv
+        sb, sinfo, st, sdisp = ss
+    if templated:
+        _sibling(ctx, s, ver, sign, vb, vinfo, vt, vdisp, sb, sinfo, st, sdisp, eacc)
+    _accepting_paths(ctx, s, ver, sign, an, eacc, templated)
+
+
+def _sibling(ctx, s, ver, sign, vb, vinfo, vt, vdisp, sb, sinfo, st, sdisp, eacc):
     dv, ds = decode_template(vt), decode_template(st)
     okt = dv == NIP01_TEMPLATE and ds == NIP01_TEMPLATE and vt == st
     s.add("S-SIBLING", ver, "canonical-template", "verify/sign_new", vinfo["sp"], PROVED if okt else VIOLATION,
@@ -109,6 +126,9 @@ def run(ctx):
         okc = contains_value(sdisp[4][1], lambda x: x[0] == "call" and x[1] == escaping.ESCAPE) if sdisp[4][1] else False
         s.add("S-ESCFLOW", sign, "signer-content-escaped", "escape(content)", sinfo["sp"], PROVED if okc else VIOLATION,
               "the signer serializes json_escape(content)" if okc else "the signer serializes unescaped content", sb)
+
+
+def _accepting_paths(ctx, s, ver, sign, an, eacc, templated):
     # ---------------------------------------------------------------- 1. both checks on every accepting path
     hashes = [(b, i) for b, i in an.calls() if (i["callee"] or "").endswith("Hash::hash") or (i["base"] or "").endswith("Hash::hash")]
     from ..main import AnalysisError
@@ -163,8 +183,9 @@ def run(ctx):
         s.add("S-MUSTPASS", ver, "signature-step", tag, i["sp"], PROVED if ok else VIOLATION,
               "on every accepting path, with operands from this event / this digest" if ok else
               "%s: on every accepting path=%s, operand provenance=%s" % (name, okp, okv), b)
-    s.add("S-REL", ver, "digest-of-serialization", "sha256(signable.as_bytes())", hashes[0][1]["sp"], PROVED if okh else VIOLATION,
-          "the digest is taken over the serialized string" if okh else "the digest is not taken over the serialization")
+    if templated:
+        s.add("S-REL", ver, "digest-of-serialization", "sha256(signable.as_bytes())", hashes[0][1]["sp"], PROVED if okh else VIOLATION,
+              "the digest is taken over the serialized string" if okh else "the digest is not taken over the serialization")
     # ---------------------------------------------------------------- signer: id and signature over the same digest
     sa = ctx.E.an(sign)
     sh = [(b, i) for b, i in sa.calls() if (i["callee"] or "").endswith("Hash::hash") or (i["base"] or "").endswith("Hash::hash")]
@@ -172,8 +193,14 @@ def run(ctx):
         SH = sh[0][1]["value"]
         idc = [(b, i) for b, i in sa.calls() if s.nice(i["callee"] or "") == "pocket_types::Id::from_bytes"]
         msg = [(b, i) for b, i in sa.calls() if (i["callee"] or "").endswith("from_digest_slice")]
-        okid = bool(idc) and contains_value(idc[0][1]["args"][0], lambda x: x == SH)
-        okm = bool(msg) and contains_value(msg[0][1]["args"][0], lambda x: x == SH)
+        from ..srules import leaf_values
+
+        def from_digest(info):
+            vals = [info["args"][0]] + [p for p in info["pre"][:1] if p is not None]
+            leaves = [l for v in vals for l in (leaf_values(sa, v) or [v])]
+            return any(contains_value(l, lambda x: x == SH) for l in leaves)
+        okid = bool(idc) and from_digest(idc[0][1])
+        okm = bool(msg) and from_digest(msg[0][1])
         s.add("S-SIBLING", sign, "signer-id-is-digest", "id=sha256(signable)", sign.sp, PROVED if (okid and okm) else VIOLATION,
               "the signer's id is the digest and the signed message is that same digest" if (okid and okm) else
               "sign_new: id from digest=%s, message from digest=%s" % (okid, okm))
